@@ -47,68 +47,117 @@ Proof. intros. unfold ge. rewrite Hmono; auto. Qed.
 Lemma gt_map x y : P x -> P y -> gt B ltB (f x) (f y) = gt A ltA x y.
 Proof. intros. unfold gt. rewrite Hmono; auto. Qed.
 
-Ltac acc_P :=
+Lemma bk1_map d : bk1 B (map f d) = option_map f (bk1 A d).
+Proof. apply nth_error_map'. Qed.
+Lemma bk2_map d : bk2 B (map f d) = option_map f (bk2 A d).
+Proof. apply nth_error_map'. Qed.
+Lemma bk3_map d : bk3 B (map f d) = option_map f (bk3 A d).
+Proof. apply nth_error_map'. Qed.
+Lemma fr0_map d : fr0 B (map f d) = option_map f (fr0 A d).
+Proof. unfold fr0. rewrite map_length. apply nth_error_map'. Qed.
+Lemma fr1_map d : fr1 B (map f d) = option_map f (fr1 A d).
+Proof. unfold fr1. rewrite map_length. destruct (length d <? 2)%nat; [reflexivity|apply nth_error_map']. Qed.
+Lemma set_fr0_map x d : set_fr0 B (f x) (map f d) = map f (set_fr0 A x d).
+Proof. unfold set_fr0. rewrite map_length. apply set_nth_map. Qed.
+Lemma set_fr1_map x d : set_fr1 B (f x) (map f d) = map f (set_fr1 A x d).
+Proof. unfold set_fr1. rewrite map_length. apply set_nth_map. Qed.
+Lemma set_bk1_map x d : set_bk1 B (f x) (map f d) = map f (set_bk1 A x d).
+Proof. apply set_nth_map. Qed.
+Lemma erase_map k d : erase B k (map f d) = map f (erase A k d).
+Proof. apply skipn_map'. Qed.
+
+Lemma bk1_P d x : Forall P d -> bk1 A d = Some x -> P x. Proof. apply nth_error_P. Qed.
+Lemma bk2_P d x : Forall P d -> bk2 A d = Some x -> P x. Proof. apply nth_error_P. Qed.
+Lemma bk3_P d x : Forall P d -> bk3 A d = Some x -> P x. Proof. apply nth_error_P. Qed.
+Lemma fr0_P d x : Forall P d -> fr0 A d = Some x -> P x. Proof. apply nth_error_P. Qed.
+Lemma fr1_P d x : Forall P d -> fr1 A d = Some x -> P x.
+Proof. unfold fr1. destruct (length d <? 2)%nat; [discriminate|apply nth_error_P]. Qed.
+Lemma set_fr0_P x d : P x -> Forall P d -> Forall P (set_fr0 A x d). Proof. apply set_nth_P. Qed.
+Lemma set_fr1_P x d : P x -> Forall P d -> Forall P (set_fr1 A x d). Proof. apply set_nth_P. Qed.
+Lemma set_bk1_P x d : P x -> Forall P d -> Forall P (set_bk1 A x d). Proof. apply set_nth_P. Qed.
+Lemma erase_P k d : Forall P d -> Forall P (erase A k d). Proof. apply skipn_P. Qed.
+
+(* destruct the accessor scrutinised by the goal, remembering that the element satisfies P *)
+Ltac acc d Hd :=
   repeat match goal with
-  | HF : Forall P ?d, H : nth_error ?d ?k = Some ?x |- _ =>
-    lazymatch goal with
-    | _ : P x |- _ => fail
-    | _ => pose proof (nth_error_P d k x HF H)
-    end
+  | |- context [option_map f (bk1 A d)] => let E := fresh "E" in let x := fresh "b1" in
+      destruct (bk1 A d) as [x|] eqn:E; cbn [option_map]; [pose proof (bk1_P d x Hd E)|try reflexivity]
+  | |- context [option_map f (bk2 A d)] => let E := fresh "E" in let x := fresh "b2" in
+      destruct (bk2 A d) as [x|] eqn:E; cbn [option_map]; [pose proof (bk2_P d x Hd E)|try reflexivity]
+  | |- context [option_map f (bk3 A d)] => let E := fresh "E" in let x := fresh "b3" in
+      destruct (bk3 A d) as [x|] eqn:E; cbn [option_map]; [pose proof (bk3_P d x Hd E)|try reflexivity]
+  | |- context [option_map f (fr0 A d)] => let E := fresh "E" in let x := fresh "d0" in
+      destruct (fr0 A d) as [x|] eqn:E; cbn [option_map]; [pose proof (fr0_P d x Hd E)|try reflexivity]
+  | |- context [option_map f (fr1 A d)] => let E := fresh "E" in let x := fresh "d1" in
+      destruct (fr1 A d) as [x|] eqn:E; cbn [option_map]; [pose proof (fr1_P d x Hd E)|try reflexivity]
   end.
+Ltac cmp := rewrite ?le_map, ?ge_map, ?gt_map, ?Hmono by assumption.
+Ltac ifs := repeat match goal with |- context [if ?c then _ else _] => destruct c end.
+Ltac fin := cbn [map_outcome map_state lab data cur rest outp map ff fst snd];
+            repeat (rewrite erase_map || rewrite set_fr0_map || rewrite set_fr1_map || rewrite set_bk1_map);
+            try reflexivity.
 
 Lemma step_map s : good s -> step B ltB (map_state s) = map_outcome (step A ltA s).
 Proof.
   destruct s as [l d v r o]. intros (Hd & Hv & Hr). cbn [data cur rest] in *.
   unfold step, goto, map_state. cbn [lab data cur rest outp].
-  unfold bk1, bk2, bk3, fr0, fr1, set_fr0, set_fr1, set_bk1, erase.
-  rewrite ?map_length.
+  rewrite ?bk1_map, ?bk2_map, ?bk3_map, ?fr0_map, ?fr1_map, ?map_length.
+  assert (Hr' : forall x r', r = x :: r' -> P x) by (intros x r' ->; inversion Hr; auto).
   destruct l.
-  all: try (destruct r as [|x r]; [reflexivity|]; cbn [map]; assert (Hx : P x) by (inversion Hr; assumption)).
-  all: rewrite ?nth_error_map'.
-  all: repeat match goal with
-       | |- context [nth_error d ?k] => let E := fresh "E" in destruct (nth_error d k) eqn:E; cbn [option_map]; try reflexivity
-       | |- context [(length d <? 2)%nat] => destruct (length d <? 2)%nat; try reflexivity
-       end.
-  all: acc_P.
-  all: rewrite ?le_map, ?ge_map, ?gt_map, ?Hmono by assumption.
-  all: repeat match goal with
-       | |- context [if ?c then _ else _] => destruct c; cbn [map_outcome map_state lab data cur rest outp]
-       end.
-  all: rewrite <- ?skipn_map', <- ?set_nth_map; cbn [map ff fst snd map_outcome map_state lab data cur rest outp].
-  all: try reflexivity.
-  all: try (destruct d; reflexivity).
-  all: try (rewrite ?skipn_map'; destruct (skipn _ d); reflexivity).
-  all: try (destruct (length d) as [|[|[|n]]]; reflexivity).
-  all: try (rewrite map_rev; reflexivity).
+  - (* L1 *) destruct r as [|x r]; [reflexivity|]. pose proof (Hr' x r eq_refl). cbn [map]. acc d Hd. cmp. ifs; fin.
+  - (* L1down *) destruct d as [|a d]; [reflexivity|]. cbn [map_outcome map_state lab data cur rest outp].
+    rewrite set_fr0_map. reflexivity.
+  - (* L12 *) destruct r as [|x r]; [reflexivity|]. pose proof (Hr' x r eq_refl). cbn [map]. acc d Hd. cmp. ifs; fin.
+  - (* L12down *) acc d Hd. cmp. ifs; fin.
+  - (* L132 *) destruct r as [|x r]; [reflexivity|]. pose proof (Hr' x r eq_refl). cbn [map]. acc d Hd. cmp.
+    rewrite erase_map. destruct (erase A 3 d); cbn [map]; ifs; fin.
+  - (* L132up *) acc d Hd. cmp. ifs; fin.
+  - (* L312 *) destruct r as [|x r]; [reflexivity|]. pose proof (Hr' x r eq_refl). cbn [map]. acc d Hd. cmp.
+    rewrite erase_map. destruct (erase A 3 d); cbn [map]; ifs; fin.
+  - (* L312down *) acc d Hd. cmp. ifs; fin.
+  - (* Lup *) ifs; fin.
+  - (* Ldown *) destruct (length d) as [|[|[|n]]]; fin.
+  - (* Lendup *) destruct d as [|a d]; fin.
+  - (* Lenddown *) destruct (1 <? length d)%nat; [|fin]. acc d Hd. fin.
+  - (* Linf *) acc d Hd. fin. rewrite map_rev. reflexivity.
 Qed.
 
 Lemma step_good s s' : good s -> step A ltA s = Next s' -> good s'.
 Proof.
   destruct s as [l d v r o]. intros (Hd & Hv & Hr). cbn [data cur rest] in *.
   unfold step, goto. cbn [lab data cur rest outp].
-  unfold bk1, bk2, bk3, fr0, fr1, set_fr0, set_fr1, set_bk1, erase.
   assert (Hr' : forall x r', r = x :: r' -> P x /\ Forall P r') by (intros x r' ->; inversion Hr; auto).
+  assert (G : forall l' d' v' r' o', Forall P d' -> P v' -> Forall P r' -> good (mk l' d' v' r' o'))
+    by (intros; unfold good; cbn; auto).
   destruct l.
-  all: try (destruct r as [|x r']; [intros H; inversion H; subst; unfold good; cbn; auto|];
-            destruct (Hr' x r' eq_refl) as [Hx Hr2]).
+  all: try (destruct r as [|x r']; [intros HH; inversion HH; subst; apply G; auto|]; destruct (Hr' x r' eq_refl) as [Hx Hr2]).
   all: repeat match goal with
-       | |- context [nth_error d ?k] => let E := fresh "E" in destruct (nth_error d k) eqn:E; try discriminate
-       | |- context [(length d <? 2)%nat] => destruct (length d <? 2)%nat; try discriminate
+       | Hd : Forall P ?dd |- context [bk1 A ?dd] => let E := fresh "E" in let x := fresh "b1" in
+           destruct (bk1 A dd) as [x|] eqn:E; [pose proof (bk1_P dd x Hd E)|try discriminate]
+       | Hd : Forall P ?dd |- context [bk2 A ?dd] => let E := fresh "E" in let x := fresh "b2" in
+           destruct (bk2 A dd) as [x|] eqn:E; [pose proof (bk2_P dd x Hd E)|try discriminate]
+       | Hd : Forall P ?dd |- context [bk3 A ?dd] => let E := fresh "E" in let x := fresh "b3" in
+           destruct (bk3 A dd) as [x|] eqn:E; [pose proof (bk3_P dd x Hd E)|try discriminate]
+       | Hd : Forall P ?dd |- context [fr0 A ?dd] => let E := fresh "E" in let x := fresh "d0" in
+           destruct (fr0 A dd) as [x|] eqn:E; [pose proof (fr0_P dd x Hd E)|try discriminate]
+       | Hd : Forall P ?dd |- context [fr1 A ?dd] => let E := fresh "E" in let x := fresh "d1" in
+           destruct (fr1 A dd) as [x|] eqn:E; [pose proof (fr1_P dd x Hd E)|try discriminate]
        end.
-  all: acc_P.
-  all: repeat match goal with
-       | |- context [if ?c then _ else _] => destruct c
-       end.
-  all: try (destruct d as [|d0 d1] eqn:Ed; try discriminate).
-  all: try (match goal with |- context [match skipn ?k ?l with _ => _ end] => destruct (skipn k l) eqn:Es end; try discriminate).
-  all: try (match goal with |- context [match length ?l with _ => _ end] => destruct (length l) as [|[|[|n]]] end).
-  all: intros H; inversion H; subst; unfold good; cbn [data cur rest]; repeat split; auto.
-  all: try (apply set_nth_P; auto).
-  all: try (apply skipn_P; auto).
+  all: try (match goal with Hd : Forall P ?dd |- context [match erase A ?k ?dd with _ => _ end] =>
+              pose proof (erase_P k dd Hd); destruct (erase A k dd) end).
+  all: ifs.
+  all: try (match goal with |- context [match length ?dd with _ => _ end] => destruct (length dd) as [|[|[|n]]] end).
+  all: try (match goal with |- context [match ?dd with [] => _ | _ => _ end] => is_var dd; destruct dd end).
+  all: try discriminate.
+  all: intros HH; inversion HH; subst; apply G; auto.
+  all: try (apply set_fr0_P; auto); try (apply set_fr1_P; auto); try (apply set_bk1_P; auto); try (apply erase_P; auto).
   all: try (constructor; auto).
-  all: try (match goal with Es : skipn ?k ?l = _ |- _ => rewrite <- Es; apply skipn_P; auto end).
   all: try (inversion Hd; subst; auto).
-  all: try (apply skipn_P; auto).
+  all: try (apply erase_P; auto).
+  all: match goal with
+       | Hd : Forall P (_ :: ?l) |- Forall P (match ?l with [] => _ | _ :: _ => _ end) =>
+         inversion Hd as [|? ? ? Hd2]; subst; destruct l; [constructor|inversion Hd2; assumption]
+       end.
 Qed.
 
 Lemma run_map fuel s : good s -> run B ltB fuel (map_state s) = map_outcome (run A ltA fuel s).
@@ -128,7 +177,7 @@ Definition map_result (r : option (list (A * A) * option A)) : option (list (B *
 Theorem line_map l : Forall P l -> line B ltB (map f l) = map_result (line A ltA l).
 Proof.
   intros HF. destruct l as [|x r]; [reflexivity|].
-  unfold line. cbn [map]. unfold line_fuel. rewrite !map_length. cbn [length].
+  unfold line, line_fuel. cbn [map length]. rewrite map_length.
   change (mk L1 [f x] (f x) (map f r) []) with (map_state (mk L1 [x] x r [])).
   rewrite run_map.
   - destruct (run A ltA _ _); reflexivity.
